@@ -142,6 +142,31 @@ pub fn check_workspace_diags(ws: &Path) -> (bool, Vec<CheckDiag>, String) {
     }
 }
 
+/// remove what cargo left in the shared target directory for these generated packages (binaries, dep-info,
+/// fingerprints): thousands of packages are generated per run and nothing of them is needed afterwards
+pub fn cleanup_members(members: &[String]) {
+    let debug = Path::new(TARGET_DIR).join("debug");
+    for m in members {
+        let _ = std::fs::remove_file(debug.join(m));
+        let _ = std::fs::remove_file(debug.join(format!("{m}.d")));
+    }
+    for sub in ["deps", ".fingerprint", "incremental"] {
+        let Ok(rd) = std::fs::read_dir(debug.join(sub)) else { continue };
+        for e in rd.flatten() {
+            let name = e.file_name().to_string_lossy().to_string();
+            let owned = members.iter().any(|m| name.strip_prefix(m.as_str()).map(|rest| rest.starts_with('-')).unwrap_or(false));
+            if owned {
+                let p = e.path();
+                if p.is_dir() {
+                    let _ = std::fs::remove_dir_all(&p);
+                } else {
+                    let _ = std::fs::remove_file(&p);
+                }
+            }
+        }
+    }
+}
+
 pub fn binary_path(member: &str) -> PathBuf {
     Path::new(TARGET_DIR).join("debug").join(member)
 }
